@@ -18,7 +18,7 @@ $(B)/o/%.o: sim/%.cc $(wildcard sim/*.h) $(B)/lib.stamp
 	$(CXX) $(CXXFLAGS) -c $< -o $@
 
 $(B)/isal-sim: $(OBJS) $(B)/lib.stamp
-	$(CXX) -o $@ $(OBJS) -L$(B) -lisal_sim -Wl,-rpath,'$$ORIGIN' -lz -lpthread -ldl
+	$(CXX) -o $@ $(OBJS) -L$(B) -lisal_sim -Wl,-rpath,'$$ORIGIN' -lz -lpthread -ldl -rdynamic
 
 $(B)/lib.stamp: lib
 
